@@ -58,6 +58,8 @@ pub enum TxtE {
     Upper(Box<TxtE>),
     Lower(Box<TxtE>),
     Concat(Box<TxtE>, Box<TxtE>),
+    /// CONCAT(a, b, ...) function form, 2 to 4 arguments
+    ConcatN(Vec<TxtE>),
     Case(Box<Pr>, Box<TxtE>, Box<TxtE>),
     Coalesce(Box<TxtE>, Box<TxtE>),
 }
@@ -391,6 +393,11 @@ impl<'a> Renderer<'a> {
             TxtE::Concat(a, b) => {
                 self.class("string_function");
                 format!("({} || {})", self.txt(a, sc), self.txt(b, sc))
+            }
+            TxtE::ConcatN(args) => {
+                self.class("string_function");
+                self.class("concat_function");
+                format!("CONCAT({})", args.iter().map(|a| self.txt(a, sc)).collect::<Vec<_>>().join(", "))
             }
             TxtE::Case(p, a, b) => {
                 self.class("case");
@@ -1036,6 +1043,7 @@ pub fn txt_strategy(depth: u32) -> BoxedStrategy<TxtE> {
         1 => sub.clone().prop_map(|a| TxtE::Upper(Box::new(a))),
         1 => sub.clone().prop_map(|a| TxtE::Lower(Box::new(a))),
         1 => (sub.clone(), sub.clone()).prop_map(|(a, b)| TxtE::Concat(Box::new(a), Box::new(b))),
+        1 => proptest::collection::vec(sub.clone(), 2..5).prop_map(TxtE::ConcatN),
         1 => (sub.clone(), sub).prop_map(|(a, b)| TxtE::Coalesce(Box::new(a), Box::new(b))),
     ]
     .boxed()
